@@ -444,6 +444,19 @@ def cases(tier, seed):
                     if vk == 'fseqnd' and all(full(d, N) for d, N in zip(dst, shape)): continue
                     op = rng.choice(INT_OPS if parent == 'own' else ['+=', '-='])     # TensorMap: view = view does not compile
                     out.append(view_case(vk, INT, shape, dst, [src], op, 'v', isa, vtxt, parent=parent))
+        # ---- plain '=' from a bare view whose stride is smaller than the destination's and that starts at or after it
+        # (the copy order matters although the source does not start before the destination)
+        for (N, d, sr) in [(9, (0, 8, 2), (1, 5, 1)), (9, (1, 9, 2), (2, 6, 1)), (9, (0, 9, 3), (3, 6, 1))] + ([(12, (0, 12, 3), (2, 6, 1)), (10, (0, 10, 2), (3, 8, 1))] if T else []):
+            for ty in ((INT, ftype()) if T else (INT,)):
+                out.append(view_case('seq1d-stride', ty, (N,), [d], [[sr]], '=', 'v', isa, seq_txt))
+        out.append(view_case('seq2d-stride', INT, (3, 9), [(0, 3, 1), (0, 8, 2)], [[(0, 3, 1), (1, 5, 1)]], '=', 'v', isa, seq_txt))
+        # ---- coinciding source and destination, no noalias(): full rows wider than the vector (vector body + remainder)
+        for ty in (INT, FLT, DBL):
+            V_ = vec_elems(isa, ty)
+            for cols in sorted({V_ + 1, 2 * V_ + 1} if V_ <= 8 else {V_ + 1}):
+                dst = [(0, 3, 1), (0, cols, 1)]
+                for op in (('=',) if not T else ('=', '+=')):
+                    out.append(view_case('seq2d-coincide-rows', ty, (3, cols), dst, [dst], op, 'v+v', isa, seq_txt, noalias=False))
         # ---- coinciding source and destination, no noalias() --------------------------------------------------
         for N in ((5, 9) if not T else range(2, 12)):
             for vk, vtxt in (('seq1d', seq_txt), ('fseq1d', fseq_txt)):
